@@ -4,7 +4,7 @@
 /// layout IT computes; the implementation side of the diff is the macro-generated constants.
 fn send_definitions(rep: &mut Report, with_oracle: bool) {
     rep.expect(format!("c20 profile {}", profile()), "ok".into());
-    for m in MAPS {
+    for m in all_maps() {
         rep.expect(format!("c20 map {} {} {}", m.name, m.base, m.endian), "ok".into());
         let mut running = 0usize;
         let mut max_end = None::<usize>;
@@ -38,7 +38,7 @@ fn send_definitions(rep: &mut Report, with_oracle: bool) {
             rep.violation(json!({"kind": "layout", "map": m.name, "reg": "-"}), &format!("{}: base() {} size() {}", m.name, m.base_fn, m.size_fn), json!({"mem": "-", "ops": []}));
         }
     }
-    for m in MEMS {
+    for m in all_mems() {
         rep.expect(format!("c20 mem {} {}", m.name, m.maps.join(" ")), "ok".into());
     }
 }
@@ -404,6 +404,46 @@ fn history(cx: &mut Ctx, name: &str, rng: &mut Rng, steps: usize) {
     }
 }
 
+/// raw reads / writes of 16..1024 bytes spanning three and more registers, first all writable,
+/// then with an interior RO / NA / WO cell or register (a block-wise rewrite of the per-cell
+/// protection loops would have to get these right)
+fn big_raw(cx: &mut Ctx, name: &str, rng: &mut Rng) {
+    let Some(mut inst) = Inst::create(cx, name) else { return };
+    let n = inst.sh_raw.len();
+    let regs: Vec<(&'static str, &'static str, Range<usize>)> = inst.regs.iter().map(|r| (r.map.name, r.reg.name, r.range())).collect();
+    for (mn, rn, _) in &regs {
+        inst.exec(cx, &format!("sar {mn} {rn} RW"));
+    }
+    inst.exec(cx, &format!("obs {} {}", regs[1].0, regs[1].1));
+    inst.exec(cx, &format!("obs {} {}", regs[regs.len() - 1].0, regs[regs.len() - 1].1));
+    let lens = [16usize, 17, 31, 32, 33, 63, 64, 65, 127, 128, 129, 255, 256, 257, 300, 317, 511, 512, 513, 1000, 1023, 1024];
+    let starts = [0usize, 1, 2, 3, 4, 5, 7, 8, 290, 299, 300, 301, 316, 317, 318];
+    let round = |inst: &mut Inst, cx: &mut Ctx, rng: &mut Rng| {
+        for &l in &lens {
+            for &a in &starts {
+                if a + l > n + 2 { continue; }
+                inst.exec(cx, &format!("rr {a} {}", a + l));
+                inst.exec(cx, &format!("wr {a} {}", hex(&rng.bytes(l))));
+            }
+            // right-aligned at the end of the memory and one beyond
+            if l <= n {
+                inst.exec(cx, &format!("rr {} {n}", n - l));
+                inst.exec(cx, &format!("wr {} {}", n - l, hex(&rng.bytes(l))));
+                inst.exec(cx, &format!("wr {} {}", n - l + 1, hex(&rng.bytes(l))));
+            }
+        }
+    };
+    round(&mut inst, cx, rng);
+    // interior obstacles, one at a time
+    for (k, right) in [(1usize, "RO"), (3, "NA"), (2, "WO"), (3, "RO")] {
+        let (mn, rn, _) = regs[k.min(regs.len() - 1)];
+        inst.exec(cx, &format!("sar {mn} {rn} {right}"));
+        round(&mut inst, cx, rng);
+        inst.exec(cx, &format!("ar {mn} {rn}"));
+        inst.exec(cx, &format!("sar {mn} {rn} RW"));
+    }
+}
+
 /// every register observed (zero-length ones included), everything writable, then raw and typed
 /// writes around / over / exactly on every register, each raw one repeated with identical bytes
 fn observer_scenario(cx: &mut Ctx, name: &str, rng: &mut Rng) {
@@ -540,20 +580,21 @@ fn main() {
     protection_histories(&mut rep, &mut rng, thorough);
     {
         let mut cx = Ctx { rep: &mut rep };
-        for m in MEMS {
+        for m in all_mems() {
             typed_batteries(&mut cx, m.name, &mut rng, thorough);
         }
     }
     flush(&mut rep, &args);
     {
         let mut cx = Ctx { rep: &mut rep };
-        for m in ["MemMix", "MemMixRev", "MemScLE", "MemScBE", "MemBfBase", "MemFar", "MemBf8BE"] {
+        for m in ["MemMix", "MemMixRev", "MemScLE", "MemScBE", "MemBfBase", "MemFar", "MemBf8BE", "MemInner"] {
             observer_scenario(&mut cx, m, &mut rng);
         }
+        big_raw(&mut cx, "MemBig", &mut rng);
     }
     {
         let mut cx = Ctx { rep: &mut rep };
-        for m in ["MemBf8LE", "MemBf16BE", "MemScLE", "MemMix", "MemMixRev", "MemBfBase"] {
+        for m in ["MemBf8LE", "MemBf16BE", "MemScLE", "MemMix", "MemMixRev", "MemBfBase", "MemInner"] {
             raw_grid(&mut cx, m, &mut rng, 3);
         }
         if thorough {
@@ -563,7 +604,7 @@ fn main() {
         }
     }
     flush(&mut rep, &args);
-    for m in MEMS.iter().filter(|m| m.name.starts_with("MemBf") && m.name != "MemBfBase") {
+    for m in all_mems().into_iter().filter(|m| m.name.starts_with("MemBf") && m.name != "MemBfBase") {
         let mut cx = Ctx { rep: &mut rep };
         bitfield_sweeps(&mut cx, m.name, &mut rng, thorough, args.seed);
         flush(&mut rep, &args);
@@ -573,14 +614,15 @@ fn main() {
         let steps = if thorough { 400 } else { 250 };
         for _ in 0..rounds {
             let mut cx = Ctx { rep: &mut rep };
-            for m in MEMS {
+            for m in all_mems() {
                 history(&mut cx, m.name, &mut rng, steps);
             }
         }
     }
     rep.extra.insert("family".into(), json!({
-        "maps": MAPS.len(), "registers": MAPS.iter().map(|m| m.regs.len()).sum::<usize>(), "memories": MEMS.len(),
+        "maps": all_maps().len(), "registers": all_maps().iter().map(|m| m.regs.len()).sum::<usize>(), "memories": all_mems().len(),
         "bitfields_8_16": "all (lsb,msb) x {unsigned,signed} x {LE,BE}", "bitfields_32_64": "boundary (lsb,msb) pairs x {unsigned,signed} x {LE,BE}",
+        "inner_visibility_probe": format!("{:?} / pub(crate) map from the crate root: base {}", maps::INNER_VIS_PROBE, maps::inner::InC::base()),
         "bitfields_64_full_width": "included (compile since the i128 min/max fix)"}));
     rep.write(&args);
 }
